@@ -168,6 +168,15 @@ func runC28(c *Ctx) {
 	c.Rule("R28b", "typestate: a Process.Fork whose constant flags register a FID (F_FUNCTION set, or F_PARENT_VARTABLE clear) reaches Execute / deregisterProcess / destroyProcess / GlobalFIDs.Deregister (or Kill, for non-F_FUNCTION forks) on every path from the call to the function's exits, unless the fork value escapes (returned, stored outside the function, passed whole to another function)")
 	c.checkForkTypestate()
 
+	c.Rule("R28d", "processes the try/trypipe schedulers skip or abort without ever starting are released: every skip arm and abort loop applies Stdout.Close, Stderr.Close and GlobalFIDs.Deregister to the same process index (compile registered them; nothing else will release them)")
+	tryCleanupRule = "R28d"
+	for _, name := range []string{"runModeTry", "runModeTryPipe"} {
+		if fd, _ := c.MustFunc("R28d", "lang", "", name); fd != nil {
+			c.checkTryCleanup(info, fd, "")
+		}
+	}
+	tryCleanupRule = "R05e"
+
 	c.Rule("R28c", "Execute releases what Fork registered: Fork.Execute defers deregisterProcess when fidRegistered; deregisterProcess calls GlobalFIDs.Deregister(p.Id); funcID.Deregister deletes the entry for the given fid")
 	if fd, _ := c.MustFunc("R28c", "lang", "Fork", "Execute"); fd != nil {
 		ok := false
